@@ -50,15 +50,23 @@ theorem assignNewItems_eq : ∀ (l : List (Nat × BuildNode)) (nodes : Nodes), (
     simp only [bind_ok]
     exact ih _ (fun q hq => by rw [size_putNode]; exact hp q (List.mem_cons_of_mem _ hq))
 
+/-- the phases after `else_inv` -/
+def elsePhase (ph : Nat → Phase) (ni : Nat) (idxs : List Nat) : Nat → Phase :=
+  fun x => if x = ni then .p3 else if x ∈ idxs then .pr else ph x
+
+/-- the phases after `inv_pop_root` -/
+def popPhase (ph : Nat → Phase) (r : Nat) : Nat → Phase := fun x => if x = r then .p1 else ph x
+
 /-! ### the head of an else-chain releases its arms (`ElseJump`, second visit) -/
 
-theorem else_inv (V : Validated root tree G) {ph : Nat → Phase} {ctx ctx' : Ctx F} (h : Inv root tree G ph ctx)
+theorem else_inv_exp (V : Validated root tree G) {ph : Nat → Phase} {ctx ctx' : Ctx F} (h : Inv root tree G ph ctx)
     {ni : Nat} (hG : G ni) (hph : ph ni = .p1 ∨ ph ni = .p2) (hns : ni ∉ ctx.stack.toList)
     {node : BuildNode} (hnode : ctx.nodes[ni]? = some (some node)) (containing jumpToIndex : Nat)
     (hS : ctx'.stack = ctx.stack)
     (hR : ctx'.rootStack.toList = ctx.rootStack.toList ++ node.conditionalItems.toList.map (·.nodeIndex))
     (hN : ctx'.nodes = assign ctx.nodes (node.conditionalItems.toList.map (itemNode containing jumpToIndex))) :
-    ∃ ph', Inv root tree G ph' ctx' ∧ total ph' tree.size < total ph tree.size := by
+    Inv root tree G (elsePhase ph ni (node.conditionalItems.toList.map (·.nodeIndex))) ctx' ∧
+      total (elsePhase ph ni (node.conditionalItems.toList.map (·.nodeIndex))) tree.size < total ph tree.size := by
   have hni0 : ph ni ≠ .p0 := by rcases hph with h1 | h1 <;> rw [h1] <;> intro h <;> cases h
   have hni3 : ph ni ≠ .p3 := by rcases hph with h1 | h1 <;> rw [h1] <;> intro h <;> cases h
   let idxs := node.conditionalItems.toList.map (·.nodeIndex)
@@ -72,14 +80,14 @@ theorem else_inv (V : Validated root tree G) {ph : Nat → Phase} {ctx ctx' : Ct
     intro hm
     have := (hidx ni hm).2
     rcases hph with h1 | h1 <;> rw [h1] at this <;> cases this
-  let ph' : Nat → Phase := fun x => if x = ni then .p3 else if x ∈ idxs then .pr else ph x
-  have hni' : ph' ni = .p3 := by simp [ph']
+  let ph' : Nat → Phase := elsePhase ph ni idxs
+  have hni' : ph' ni = .p3 := by simp [ph', elsePhase]
   have hidx' : ∀ x, x ∈ idxs → ph' x = .pr := by
     intro x hx
     have : x ≠ ni := fun hxn => hidxni (hxn ▸ hx)
-    simp [ph', this, hx]
+    simp [ph', elsePhase, this, hx]
   have hother : ∀ x, x ≠ ni → x ∉ idxs → ph' x = ph x := by
-    intro x h1 h2; simp [ph', h1, h2]
+    intro x h1 h2; simp [ph', elsePhase, h1, h2]
   -- a node whose phase is not `pc ni` (and which is not `ni`) keeps its phase
   have hsame : ∀ x, x ≠ ni → ph x ≠ .pc ni → ph' x = ph x := by
     intro x h1 h2
@@ -111,7 +119,8 @@ theorem else_inv (V : Validated root tree G) {ph : Nat → Phase} {ctx ctx' : Ct
     have hne : ph it.nodeIndex ≠ .pc ni := by
       rw [hp]; intro he; cases he; exact hyn rfl
     exact ⟨g, by rw [hsame _ hn hne]; exact hp⟩
-  refine ⟨ph', ⟨?_, ?_, ?_, ?_, ?_, ?_, ?_, ?_, ?_, ?_, ?_⟩, ?_⟩
+  change Inv root tree G ph' ctx' ∧ total ph' tree.size < total ph tree.size
+  refine ⟨⟨?_, ?_, ?_, ?_, ?_, ?_, ?_, ?_, ?_, ?_, ?_⟩, ?_⟩
   · rw [hS]; exact h.stackNodup
   · intro x hx
     rw [hS] at hx
@@ -202,6 +211,15 @@ theorem else_inv (V : Validated root tree G) {ph : Nat → Phase} {ctx ctx' : Ct
       rcases hph with h2 | h2 <;> rw [h2] <;> decide
 
 
+theorem else_inv (V : Validated root tree G) {ph : Nat → Phase} {ctx ctx' : Ctx F} (h : Inv root tree G ph ctx)
+    {ni : Nat} (hG : G ni) (hph : ph ni = .p1 ∨ ph ni = .p2) (hns : ni ∉ ctx.stack.toList)
+    {node : BuildNode} (hnode : ctx.nodes[ni]? = some (some node)) (containing jumpToIndex : Nat)
+    (hS : ctx'.stack = ctx.stack)
+    (hR : ctx'.rootStack.toList = ctx.rootStack.toList ++ node.conditionalItems.toList.map (·.nodeIndex))
+    (hN : ctx'.nodes = assign ctx.nodes (node.conditionalItems.toList.map (itemNode containing jumpToIndex))) :
+    ∃ ph', Inv root tree G ph' ctx' ∧ total ph' tree.size < total ph tree.size :=
+  ⟨_, else_inv_exp V h hG hph hns hnode containing jumpToIndex hS hR hN⟩
+
 /-! ### neutral updates and the pops -/
 
 /-- the invariant does not mention `data` -/
@@ -271,21 +289,22 @@ theorem inv_pop_stack {ph : Nat → Phase} {ctx : Ctx F} (h : Inv root tree G ph
   exact n3 ni hm ni (by simp) rfl
 
 /-- popping the outer work list: the root becomes the only entry of a fresh inner work list -/
-theorem inv_pop_root (V : Validated root tree G) {ph : Nat → Phase} {ctx ctx' : Ctx F} (h : Inv root tree G ph ctx) {r : Nat}
+theorem inv_pop_root_exp (V : Validated root tree G) {ph : Nat → Phase} {ctx ctx' : Ctx F} (h : Inv root tree G ph ctx) {r : Nat}
     (hb : ctx.rootStack.back? = some r) (hS : ctx'.stack = #[r]) (hR : ctx'.rootStack = ctx.rootStack.pop)
     (hN : ctx'.nodes = ctx.nodes) :
-    ∃ ph', Inv root tree G ph' ctx' ∧ total ph' tree.size < total ph tree.size := by
+    Inv root tree G (popPhase ph r) ctx' ∧ total (popPhase ph r) tree.size < total ph tree.size := by
   have hl := toList_of_back hb
   have hnd := h.rootNodup
   rw [hl] at hnd
   obtain ⟨n1, _, n3⟩ := List.nodup_append.1 hnd
   have hmem : r ∈ ctx.rootStack.toList := by rw [hl]; simp
   obtain ⟨hrG, hrp⟩ := h.rootOk r hmem
-  let ph' : Nat → Phase := fun x => if x = r then .p1 else ph x
-  have hr' : ph' r = .p1 := by simp [ph']
-  have hother : ∀ x, x ≠ r → ph' x = ph x := by intro x hx; simp [ph', hx]
+  let ph' : Nat → Phase := popPhase ph r
+  have hr' : ph' r = .p1 := by simp [ph', popPhase]
+  have hother : ∀ x, x ≠ r → ph' x = ph x := by intro x hx; simp [ph', popPhase, hx]
   have hsame : ∀ x, ph x ≠ .pr → ph' x = ph x := fun x hx => hother x (fun hxr => hx (hxr ▸ hrp))
-  refine ⟨ph', ⟨?_, ?_, ?_, ?_, ?_, ?_, ?_, ?_, ?_, ?_, ?_⟩, ?_⟩
+  change Inv root tree G ph' ctx' ∧ total ph' tree.size < total ph tree.size
+  refine ⟨⟨?_, ?_, ?_, ?_, ?_, ?_, ?_, ?_, ?_, ?_, ?_⟩, ?_⟩
   · rw [hS]; simp
   · intro x hx
     rw [hS] at hx
@@ -339,5 +358,12 @@ theorem inv_pop_root (V : Validated root tree G) {ph : Nat → Phase} {ctx ctx' 
       · subst hxr; rw [hr', hrp]; decide
       · rw [hother x hxr]; exact Nat.le_refl _
     · exact ⟨r, G_lt V hrG, by rw [hr', hrp]; decide⟩
+
+
+theorem inv_pop_root (V : Validated root tree G) {ph : Nat → Phase} {ctx ctx' : Ctx F} (h : Inv root tree G ph ctx) {r : Nat}
+    (hb : ctx.rootStack.back? = some r) (hS : ctx'.stack = #[r]) (hR : ctx'.rootStack = ctx.rootStack.pop)
+    (hN : ctx'.nodes = ctx.nodes) :
+    ∃ ph', Inv root tree G ph' ctx' ∧ total ph' tree.size < total ph tree.size :=
+  ⟨_, inv_pop_root_exp V h hb hS hR hN⟩
 
 end Garnish.Lemmas.BuildTotal
